@@ -1,6 +1,6 @@
 (** C26 proofs. *)
 From Coq Require Import List NArith Bool Arith Lia.
-From TwLib Require Import PyPath PyPathFacts.
+From TwLib Require Import PyPath PyPathFacts PyPathDir.
 From C26 Require Import Model.
 Import ListNotations.
 
@@ -124,90 +124,251 @@ Proof.
 Qed.
 
 (** ---- static.File ---- *)
-Lemma childSearchPreauth_spec : forall cwd ex p names f,
-  absnormal p -> forallb okc names = true -> childSearchPreauth cwd ex p names = Some f ->
-  absnormal f /\ within p f.
+
+(** a path whose components are [cs] followed by ONE ordinary name lies within [render k cs] *)
+Lemma within_direct : forall k cs c, (k = 1 \/ k = 2) -> forallb okc cs = true -> okc c = true ->
+  absnormal (render k (cs ++ [c])) /\ within (render k cs) (render k (cs ++ [c])).
 Proof.
-  intros cwd ex p names f (k & cs & Hk & Hcs & ->). induction names as [|n names IH]; intros Hn H; [discriminate|].
-  cbn in Hn. apply andb_true_iff in Hn as [Hn Hns]. cbn in H.
-  destruct (ex (pjoin (render k cs) n)); [|now apply IH].
-  inversion H; subst f. clear H IH.
-  apply okc_spec in Hn as (N1 & N2 & N3 & N4).
-  rewrite abspath_abs by (apply pjoin_isabs; now apply render_isabs).
-  rewrite (normpath_pjoin_name k cs n Hk Hcs N2 N1).
-  destruct (step_name_cases cs n Hcs N2 N1) as [[E _] | [[Hok E] | [E _]]]; try contradiction.
-  rewrite E.
-  assert (Hcs' : forallb okc (cs ++ [n]) = true) by (rewrite forallb_app, Hcs; cbn; now rewrite Hok).
+  intros k cs c Hk Hcs Hc.
+  assert (Hall : forallb okc (cs ++ [c]) = true) by (rewrite forallb_app, Hcs; cbn; now rewrite Hc).
   split; [now apply absnormal_render|]. split.
   - rewrite !segments_render by assumption. apply prefix_of_app.
   - now rewrite segments_render.
 Qed.
 
+Lemma abspath_pjoin_okc : forall cwd k cs n, (k = 1 \/ k = 2) -> forallb okc cs = true -> okc n = true ->
+  abspath cwd (pjoin (render k cs) n) = render k (cs ++ [n]).
+Proof.
+  intros cwd k cs n Hk Hcs Hn. pose proof Hn as Hn'. apply okc_spec in Hn' as (N1 & N2 & N3 & N4).
+  rewrite abspath_abs by (apply pjoin_isabs; now apply render_isabs).
+  rewrite (normpath_pjoin_name k cs n Hk Hcs N2 N1).
+  destruct (step_name_cases cs n Hcs N2 N1) as [[E _] | [[_ E] | [E _]]]; try contradiction. now rewrite E.
+Qed.
+
+(** the string form of child's result *)
+Lemma child_form : forall cwd k cs name r,
+  (k = 1 \/ k = 2) -> forallb okc cs = true -> child cwd (render k cs) name = Some r ->
+  r = render k cs \/ exists c, okc c = true /\ r = render k (cs ++ [c]).
+Proof.
+  intros cwd k cs name r Hk Hcs H.
+  destruct (child_spec cwd (render k cs) name r (absnormal_render k cs Hk Hcs) H) as ((k' & cs' & Hk' & Hcs' & ->) & Hi & Hs).
+  rewrite (init_slashes_render_ok k' cs' Hk' Hcs'), (init_slashes_render_ok k cs Hk Hcs) in Hi. subst k'.
+  rewrite (segments_render k cs' Hcs'), (segments_render k cs Hcs) in Hs.
+  destruct Hs as [-> | (c & Hc & ->)]; [now left | right; now exists c].
+Qed.
+
+Lemma childSearchPreauth_form : forall cwd ex k cs names f,
+  (k = 1 \/ k = 2) -> forallb okc cs = true -> forallb okc names = true ->
+  childSearchPreauth cwd ex (render k cs) names = Some f ->
+  exists n, okc n = true /\ f = render k (cs ++ [n]).
+Proof.
+  intros cwd ex k cs names f Hk Hcs. induction names as [|n names IH]; intros Hn H; [discriminate|].
+  cbn in Hn. apply andb_true_iff in Hn as [Hn Hns]. cbn in H.
+  destruct (ex (pjoin (render k cs) n)); [|now apply IH].
+  inversion H; subst f. exists n. split; [assumption | now apply abspath_pjoin_okc].
+Qed.
+
+Lemma okc_app_ext : forall c e, okc c = true -> has_sl e = false -> okc (c ++ e) = true.
+Proof.
+  intros c e Hc He. apply okc_spec in Hc as (C1 & C2 & C3 & C4). apply okc_spec. repeat split.
+  - destruct c; [contradiction | discriminate].
+  - unfold has_sl in *. rewrite existsb_app, C2, He. reflexivity.
+  - intro E. destruct c as [|x [|y c']]; [contradiction | |].
+    + cbn in E. inversion E; subst. now apply C3.
+    + cbn in E. inversion E.
+  - intro E. destruct c as [|x [|y [|z c3]]]; [contradiction | | |].
+    + cbn in E. inversion E; subst. now apply C3.
+    + cbn in E. inversion E; subst. now apply C4.
+    + cbn in E. inversion E.
+Qed.
+
+Lemma render_snoc_ext : forall k cs c e, render k (cs ++ [c]) ++ e = render k (cs ++ [c ++ e]).
+Proof.
+  intros k cs c e. unfold render. rewrite <- app_assoc. f_equal. destruct cs as [|x cs'].
+  - reflexivity.
+  - rewrite !join_sl_snoc by discriminate. rewrite <- app_assoc. reflexivity.
+Qed.
+
 Section StaticProofs.
   Variable cwd : bytes.
   Variables (isdir exists_ : bytes -> bool).
-  Variable indexNames : list bytes.
+  Variable listdir : bytes -> list bytes.
+  Variable indexNames ignoredExts : list bytes.
+  Variable processed : bytes -> bool.
+  Variable children : list (bytes * nat).
   Hypothesis index_ok : forallb okc indexNames = true.
+  (** configured extensions contain no '/' *)
+  Hypothesis exts_ok : forallb (fun e => negb (has_sl e)) ignoredExts = true.
+  (** the kernel lists directory entries: single ordinary names *)
+  Hypothesis listdir_ok : forall d n, In n (listdir d) -> okc n = true.
+  (** within one request a path that is a directory exists *)
+  Hypothesis isdir_exists : forall p, isdir p = true -> exists_ p = true.
 
-  Lemma getChild_spec : forall p seg,
-    absnormal p ->
-    match getChild cwd isdir exists_ indexNames p seg with
-    | RFile f => absnormal f /\ within p f
+  Definition acc_within (root : bytes) (acc : list access) : Prop :=
+    forall a, In a acc -> within root (accessed a).
+
+  Lemma sibSearch_spec : forall k cs c exts acc g,
+    (k = 1 \/ k = 2) -> forallb okc cs = true -> okc c = true ->
+    forallb (fun e => negb (has_sl e)) exts = true ->
+    sibSearch cwd exists_ listdir (render k (cs ++ [c])) exts = (acc, Some g) ->
+    (exists c', okc c' = true /\ g = render k (cs ++ [c'])) /\ acc_within (render k cs) acc.
+  Proof.
+    intros k cs c exts. induction exts as [|e exts IH]; intros acc g Hk Hcs Hc He H; [discriminate|].
+    cbn in He. apply andb_true_iff in He as [He Hes]. apply negb_true_iff in He.
+    assert (Hall : forallb okc (cs ++ [c]) = true) by (rewrite forallb_app, Hcs; cbn; now rewrite Hc).
+    assert (Wself : within (render k cs) (render k cs)) by (apply within_refl; now apply absnormal_render).
+    cbn [sibSearch] in H. rewrite (dirname_child k cs c Hk Hcs Hc), (basename_child k cs c Hcs Hc) in H.
+    destruct (is_nil e && exists_ (render k (cs ++ [c]))).
+    - inversion H; subst. split; [|intros a []]. exists c. split; [assumption|].
+      rewrite abspath_abs by now apply render_isabs. apply normpath_absnormal. now apply absnormal_render.
+    - destruct (beq e star); cbn [fst snd] in H.
+      + destruct (find _ (listdir (render k cs))) as [fn|] eqn:Ef.
+        * inversion H; subst. apply find_some in Ef as [Hin _]. split.
+          -- exists fn. split; [now apply listdir_ok with (render k cs) | apply abspath_pjoin_okc; auto].
+             now apply listdir_ok with (render k cs).
+          -- intros a [<-|[]]. exact Wself.
+        * destruct (exists_ (render k (cs ++ [c]) ++ e)).
+          -- inversion H; subst. split; [|intros a [<-|[]]; exact Wself].
+             exists (c ++ e). split; [now apply okc_app_ext|]. rewrite render_snoc_ext.
+             assert (Hall' : forallb okc (cs ++ [c ++ e]) = true)
+               by (rewrite forallb_app, Hcs; cbn; now rewrite okc_app_ext).
+             rewrite abspath_abs by now apply render_isabs. apply normpath_absnormal. now apply absnormal_render.
+          -- destruct (sibSearch cwd exists_ listdir (render k (cs ++ [c])) exts) as [acc' o] eqn:Er.
+             inversion H; subst. destruct (IH acc' g Hk Hcs Hc Hes eq_refl) as [G A]. split; [assumption|].
+             intros a [<-|Ha]; [exact Wself | now apply A].
+      + destruct (exists_ (render k (cs ++ [c]) ++ e)).
+        * inversion H; subst. split; [|intros a []].
+          exists (c ++ e). split; [now apply okc_app_ext|]. rewrite render_snoc_ext.
+          assert (Hall' : forallb okc (cs ++ [c ++ e]) = true)
+            by (rewrite forallb_app, Hcs; cbn; now rewrite okc_app_ext).
+          rewrite abspath_abs by now apply render_isabs. apply normpath_absnormal. now apply absnormal_render.
+        * destruct (sibSearch cwd exists_ listdir (render k (cs ++ [c])) exts) as [acc' o] eqn:Er.
+          inversion H; subst. cbn [app]. now apply IH.
+  Qed.
+
+  Lemma sibSearch_acc : forall k cs c exts acc o,
+    (k = 1 \/ k = 2) -> forallb okc cs = true -> okc c = true ->
+    sibSearch cwd exists_ listdir (render k (cs ++ [c])) exts = (acc, o) -> acc_within (render k cs) acc.
+  Proof.
+    intros k cs c exts. induction exts as [|e exts IH]; intros acc o Hk Hcs Hc H.
+    - inversion H. intros a [].
+    - assert (Wself : within (render k cs) (render k cs)) by (apply within_refl; now apply absnormal_render).
+      cbn [sibSearch] in H. rewrite (dirname_child k cs c Hk Hcs Hc) in H.
+      destruct (is_nil e && exists_ _); [inversion H; intros a []|].
+      destruct (sibSearch cwd exists_ listdir (render k (cs ++ [c])) exts) as [acc' o'] eqn:Er.
+      specialize (IH acc' o' Hk Hcs Hc eq_refl).
+      destruct (beq e star); cbn [fst snd] in H.
+      + destruct (find _ _); [inversion H; intros a [<-|[]]; exact Wself|].
+        destruct (exists_ _); inversion H; subst; intros a [<-|Ha]; try exact Wself; [contradiction | now apply IH].
+      + destruct (exists_ _); inversion H; subst; [intros a [] | exact IH].
+  Qed.
+
+  (** the resources File.getChild can return from a File at the normal absolute path p *)
+  Definition res_within (p : bytes) (g : res) : Prop :=
+    match g with
+    | RFile f | RProc f => absnormal f /\ within p f
     | RLister d => d = p
     | _ => True
     end.
+
+  Lemma resolve_direct : forall k cs c,
+    (k = 1 \/ k = 2) -> forallb okc cs = true -> okc c = true ->
+    acc_within (render k cs) (fst (resolve cwd exists_ listdir ignoredExts processed (render k (cs ++ [c]))))
+    /\ res_within (render k cs) (snd (resolve cwd exists_ listdir ignoredExts processed (render k (cs ++ [c])))).
   Proof.
-    intros p seg Hp. unfold getChild.
-    destruct (negb (utf8_valid seg)); [exact I|].
-    destruct (negb (isdir p)); [exact I|].
-    destruct (negb (is_nil seg)).
-    - destruct (child cwd p seg) as [f|] eqn:E; [|exact I].
-      destruct (has_nul f); [exact I|]. destruct (exists_ f); [|exact I].
-      exact (child_within cwd p seg f Hp E).
-    - destruct (childSearchPreauth cwd exists_ p indexNames) as [f|] eqn:E; [|reflexivity].
-      destruct (exists_ f); [|exact I]. exact (childSearchPreauth_spec cwd exists_ p indexNames f Hp index_ok E).
+    intros k cs c Hk Hcs Hc. unfold resolve.
+    destruct (has_nul _); [split; [intros a [] | exact I]|].
+    destruct (exists_ (render k (cs ++ [c]))).
+    - cbn. split; [intros a []|]. destruct (within_direct k cs c Hk Hcs Hc) as [A W].
+      destruct (processed _); now split.
+    - destruct (sibSearch cwd exists_ listdir (render k (cs ++ [c])) ignoredExts) as [acc g] eqn:E.
+      split.
+      + destruct g; cbn; now apply sibSearch_acc with c ignoredExts o || now apply (sibSearch_acc k cs c ignoredExts acc _ Hk Hcs Hc E).
+      + destruct g as [g|]; [|exact I].
+        destruct (sibSearch_spec k cs c ignoredExts acc g Hk Hcs Hc exts_ok E) as [(c' & Hc' & ->) _].
+        destruct (within_direct k cs c' Hk Hcs Hc') as [A W]. cbn. destruct (processed _); now split.
   Qed.
 
-  Lemma walk_spec : forall post root p acc r,
-    absnormal p -> within root p -> walk cwd isdir exists_ indexNames p post = (acc, r) ->
-    (forall a, In a acc -> within root (accessed a))
-    /\ match r with
-       | RFile f => absnormal f /\ within root f
+  Lemma getChild_spec : forall p seg,
+    absnormal p ->
+    acc_within p (fst (getChild cwd isdir exists_ listdir indexNames ignoredExts processed p seg))
+    /\ res_within p (snd (getChild cwd isdir exists_ listdir indexNames ignoredExts processed p seg)).
+  Proof.
+    intros p seg (k & cs & Hk & Hcs & ->). unfold getChild.
+    assert (Wself : within (render k cs) (render k cs)) by (apply within_refl; now apply absnormal_render).
+    destruct (negb (utf8_valid seg)); [split; [intros a [] | exact I]|].
+    destruct (negb (isdir (render k cs))) eqn:Ed; [split; [intros a [] | exact I]|].
+    apply negb_false_iff in Ed.
+    destruct (negb (is_nil seg)).
+    - destruct (child cwd (render k cs) seg) as [f|] eqn:E; [|split; [intros a [] | exact I]].
+      destruct (child_form cwd k cs seg f Hk Hcs E) as [-> | (c & Hc & ->)]; [|now apply resolve_direct].
+      (* "." : the directory itself, which exists *)
+      unfold resolve. destruct (has_nul _); [split; [intros a [] | exact I]|].
+      rewrite (isdir_exists _ Ed). cbn. split; [intros a []|].
+      destruct (processed _); (split; [now apply absnormal_render | exact Wself]).
+    - destruct (childSearchPreauth cwd exists_ (render k cs) indexNames) as [f|] eqn:E.
+      + destruct (childSearchPreauth_form cwd exists_ k cs indexNames f Hk Hcs index_ok E) as (n & Hn & ->).
+        now apply resolve_direct.
+      + cbn. split; [intros a [<-|[]]; exact Wself | reflexivity].
+  Qed.
+
+  Lemma acc_within_trans : forall root p acc, within root p -> acc_within p acc -> acc_within root acc.
+  Proof. intros root p acc W A a Ha. apply within_trans with p; [assumption | now apply A]. Qed.
+
+  Lemma walk_spec : forall post root p,
+    absnormal p -> within root p ->
+    let '(acc, g, rest) := walk cwd isdir exists_ listdir indexNames ignoredExts processed p post in
+    acc_within root acc
+    /\ match g with
+       | RFile f | RProc f => absnormal f /\ within root f
        | RLister d => within root d
        | _ => True
        end.
   Proof.
-    induction post as [|seg post IH]; intros root p acc r Hp Hw H; cbn in H.
-    - inversion H; subst. split; [intros a []|]. now split.
-    - pose proof (getChild_spec p seg Hp) as G.
-      destruct (getChild cwd isdir exists_ indexNames p seg) as [f|d| |] eqn:E.
-      + destruct G as [Hf Hpf]. apply (IH root f acc r Hf); [now apply within_trans with p | assumption].
-      + subst d. inversion H; subst. split.
-        * intros a [<-|[]]. exact Hw.
-        * destruct post; [exact Hw | exact I].
-      + inversion H; subst. split; [intros a []| exact I].
-      + inversion H; subst. split; [intros a []| exact I].
+    induction post as [|seg post IH]; intros root p Hp Hw; cbn [walk].
+    - split; [intros a [] | now split].
+    - destruct (getChild_spec p seg Hp) as [GA GR].
+      destruct (getChild cwd isdir exists_ listdir indexNames ignoredExts processed p seg) as [acc g] eqn:E.
+      cbn [fst snd] in GA, GR. pose proof (acc_within_trans root p acc Hw GA) as A0.
+      destruct g as [f|d| | |f]; cbn in GR.
+      + destruct GR as [Hf Hpf]. specialize (IH root f Hf (within_trans _ _ _ Hw Hpf)).
+        destruct (walk cwd isdir exists_ listdir indexNames ignoredExts processed f post) as [[acc' g'] rest].
+        destruct IH as [A1 R1]. split; [|exact R1].
+        intros a Ha. apply in_app_or in Ha as [Ha|Ha]; [now apply A0 | now apply A1].
+      + subst d. split; [assumption|]. destruct post; [exact Hw | exact I].
+      + split; [assumption | exact I].
+      + split; [assumption | exact I].
+      + destruct GR as [Hf Hpf]. split; [assumption|]. split; [assumption | now apply within_trans with p].
   Qed.
 
   Lemma serve_segments_spec : forall root post acc o,
-    absnormal root -> serve_segments cwd isdir exists_ indexNames root post = (acc, o) ->
-    (forall a, In a acc -> within root (accessed a))
-    /\ (forall f, o = Served f \/ o = Listing f -> within root f).
+    absnormal root ->
+    serve_segments cwd isdir exists_ listdir indexNames ignoredExts processed children root post = (acc, o) ->
+    acc_within root acc
+    /\ (forall f rest, o = Served f \/ o = Listing f \/ o = Processed f rest -> within root f).
   Proof.
-    intros root post acc o Hr H. unfold serve_segments in H.
-    destruct (walk cwd isdir exists_ indexNames root post) as [acc0 r] eqn:W.
-    destruct (walk_spec post root root acc0 r Hr (within_refl root Hr) W) as [A R].
-    destruct r as [f|d| |].
-    - destruct R as [_ Rf]. destruct (exists_ f).
-      + destruct (isdir f); inversion H; subst.
-        * split; [assumption|]. intros g [G|G]; discriminate.
-        * split.
-          -- intros a Ha. apply in_app_or in Ha as [Ha|[<-|[]]]; [now apply A | exact Rf].
-          -- intros g [G|G]; inversion G; subst; exact Rf.
-      + inversion H; subst. split; [assumption|]. intros g [G|G]; discriminate.
-    - inversion H; subst. split; [assumption|]. intros g [G|G]; inversion G; subst; exact R.
-    - inversion H; subst. split; [assumption|]. intros g [G|G]; discriminate.
-    - inversion H; subst. split; [assumption|]. intros g [G|G]; discriminate.
+    intros root post acc o Hr H.
+    assert (W : forall acc o, serve_walk cwd isdir exists_ listdir indexNames ignoredExts processed root post = (acc, o) ->
+              acc_within root acc /\ (forall f rest, o = Served f \/ o = Listing f \/ o = Processed f rest -> within root f)).
+    { clear H acc o. intros acc o H. unfold serve_walk in H.
+      pose proof (walk_spec post root root Hr (within_refl root Hr)) as WS.
+      destruct (walk cwd isdir exists_ listdir indexNames ignoredExts processed root post) as [[acc0 g] rest0].
+      destruct WS as [A R]. destruct g as [f|d| | |f].
+      - destruct R as [_ Rf]. destruct (exists_ f).
+        + destruct (isdir f); inversion H; subst.
+          * split; [assumption|]. intros g r [G|[G|G]]; discriminate.
+          * split.
+            -- intros a Ha. apply in_app_or in Ha as [Ha|[<-|[]]]; [now apply A | exact Rf].
+            -- intros g r [G|[G|G]]; inversion G; subst; exact Rf.
+        + inversion H; subst. split; [assumption|]. intros g r [G|[G|G]]; discriminate.
+      - inversion H; subst. split; [assumption|]. intros g r [G|[G|G]]; inversion G; subst; exact R.
+      - inversion H; subst. split; [assumption|]. intros g r [G|[G|G]]; discriminate.
+      - inversion H; subst. split; [assumption|]. intros g r [G|[G|G]]; discriminate.
+      - destruct R as [_ Rf]. inversion H; subst. split; [assumption|].
+        intros g r [G|[G|G]]; inversion G; subst; exact Rf. }
+    unfold serve_segments in H. destruct post as [|seg r]; [now apply W|].
+    destruct (assoc seg children); [|now apply W].
+    inversion H; subst. split; [intros a []|]. intros g r' [G|[G|G]]; discriminate.
   Qed.
 End StaticProofs.
 
@@ -248,24 +409,30 @@ Proof.
   repeat split; [assumption | now apply absnormal_segments_ok | now apply normpath_absnormal].
 Qed.
 
-Lemma static_final : forall cwd isdir exists_ indexNames s urlpath acc o,
+Lemma static_final : forall cwd isdir exists_ listdir indexNames ignoredExts processed children s urlpath acc o,
   isabs cwd = true -> forallb okc indexNames = true ->
-  serve cwd isdir exists_ indexNames (mk cwd s) urlpath = (acc, o) ->
+  forallb (fun e => negb (has_sl e)) ignoredExts = true ->
+  (forall d n, In n (listdir d) -> okc n = true) ->
+  (forall p, isdir p = true -> exists_ p = true) ->
+  serve cwd isdir exists_ listdir indexNames ignoredExts processed children (mk cwd s) urlpath = (acc, o) ->
   (forall a, In a acc -> within (mk cwd s) (accessed a))
-  /\ (forall f, o = Served f \/ o = Listing f -> within (mk cwd s) f).
+  /\ (forall f rest, o = Served f \/ o = Listing f \/ o = Processed f rest -> within (mk cwd s) f).
 Proof.
-  intros cwd isdir ex idx s urlpath acc o Hc Hi H. unfold serve in H.
-  exact (serve_segments_spec cwd isdir ex idx Hi _ _ acc o (mk_absnormal cwd s Hc) H).
+  intros cwd isdir ex ls idx ign pr ch s urlpath acc o Hc Hi He Hl Hd H. unfold serve in H.
+  exact (serve_segments_spec cwd isdir ex ls idx ign pr ch Hi He Hl Hd _ _ acc o (mk_absnormal cwd s Hc) H).
 Qed.
 
-Lemma static_segments_final : forall cwd isdir exists_ indexNames s post acc o,
+Lemma static_segments_final : forall cwd isdir exists_ listdir indexNames ignoredExts processed children s post acc o,
   isabs cwd = true -> forallb okc indexNames = true ->
-  serve_segments cwd isdir exists_ indexNames (mk cwd s) post = (acc, o) ->
+  forallb (fun e => negb (has_sl e)) ignoredExts = true ->
+  (forall d n, In n (listdir d) -> okc n = true) ->
+  (forall p, isdir p = true -> exists_ p = true) ->
+  serve_segments cwd isdir exists_ listdir indexNames ignoredExts processed children (mk cwd s) post = (acc, o) ->
   (forall a, In a acc -> within (mk cwd s) (accessed a))
-  /\ (forall f, o = Served f \/ o = Listing f -> within (mk cwd s) f).
+  /\ (forall f rest, o = Served f \/ o = Listing f \/ o = Processed f rest -> within (mk cwd s) f).
 Proof.
-  intros cwd isdir ex idx s post acc o Hc Hi H.
-  exact (serve_segments_spec cwd isdir ex idx Hi _ _ acc o (mk_absnormal cwd s Hc) H).
+  intros cwd isdir ex ls idx ign pr ch s post acc o Hc Hi He Hl Hd H.
+  exact (serve_segments_spec cwd isdir ex ls idx ign pr ch Hi He Hl Hd _ _ acc o (mk_absnormal cwd s Hc) H).
 Qed.
 
 (** containment of strings in the segment view really is about names below the parent:
@@ -279,9 +446,13 @@ Qed.
 
 Example ex_static :
   let isdir := fun p => beq p [47;114]%N || beq p [47;114;47;115]%N in                 (* /r  /r/s *)
-  let ex := fun p => isdir p || beq p [47;114;47;115;47;105]%N in                     (* /r/s/i *)
-  serve [47]%N isdir ex [[105]%N] [47;114]%N [47;115;47]%N                               (* GET /s/ *)
+  let ex := fun p => isdir p || beq p [47;114;47;115;47;105]%N || beq p [47;114;47;112;46;104]%N in  (* /r/s/i  /r/p.h *)
+  let ls := fun d => if beq d [47;114]%N then [[115]; [112;46;104]]%N else [] in
+  let serve' := serve [47]%N isdir ex ls [[105]%N] [star] (fun _ => false) [([120]%N, 7)] [47;114]%N in
+  serve' [47;115;47]%N                                                                (* GET /s/ *)
   = ([AOpen [47;114;47;115;47;105]%N], Served [47;114;47;115;47;105]%N)
-  /\ serve [47]%N isdir ex [[105]%N] [47;114]%N [47;37;50;101;37;50;101;47;115]%N      (* GET /%2e%2e/s *)
-  = ([], NotFound).
-Proof. split; vm_compute; reflexivity. Qed.
+  /\ serve' [47;37;50;101;37;50;101;47;115]%N = ([], NotFound)                        (* GET /%2e%2e/s *)
+  /\ serve' [47;112]%N                                                                (* GET /p  (ignoredExts "*") *)
+  = ([AListdir [47;114]%N; AOpen [47;114;47;112;46;104]%N], Served [47;114;47;112;46;104]%N)
+  /\ serve' [47;120;47;121]%N = ([], StaticChild 7 [[121]%N]).                         (* GET /x/y  (putChild) *)
+Proof. repeat split; vm_compute; reflexivity. Qed.
